@@ -539,21 +539,39 @@ class Translator:
             cls = self.class_of(d)
             self.cur_class = cls
             params.append(self.ctype(cls).c(1) + 'self')
+        seg_used = None
+        if self.contract.get('segment'):
+            # only the parameters the segment uses are parameters of the segment function
+            _, free0 = self.find_segment(self.body_of(d), self.contract['segment'], cname)
+            seg_used = set(f[0] for f in free0)
         for i, p in enumerate(self.params_of(d)):
+            if seg_used is not None and p['id'] not in seg_used:
+                continue
             t = self.ntype(p)
             pname = p.get('name') or ('_p%d' % i)
             if t.ref and self.is_byval(t):
                 t = CT(t.base, t.ptr, False, t.const, t.cxx)
+            if seg_used is not None and not t.ref and not t.dims:
+                t = CT(t.base, t.ptr, True, t.const, t.cxx)     # the enclosing function's parameter, by reference
             self.locals[-1][p['id']] = t
             params.append(t.decl(pname))
         body = self.body_of(d)
+        self.seg_exits = False
         seg = self.contract.get('segment')
         if seg:
             # a statement of the function body verified on its own (a Hoare triple over one phase of a long function):
             # the statement is located mechanically, the enclosing function's locals it uses become by-reference parameters
             body, free = self.find_segment(body, seg, cname)
+            self.seg_ret_type = ret
             ret = CT('void')
             self.ret_type = ret
+            self.seg_exits = bool(seg.get('exits'))
+            if self.seg_exits:
+                # how the segment is left: 0 falls through, 1 return (value in *__seg_retval when the function returns one),
+                # 2 continue and 3 break of the enclosing loop
+                params.append('int *__seg_exit')
+                if self.seg_ret_type.c().strip() != 'void':
+                    params.append(self.seg_ret_type.c(1) + '__seg_retval')
             for (vid, vname, vq, vdq) in free:
                 t0 = self.local_type(vid) or self.ctype(vq, vdq)
                 t = CT(t0.base, t0.ptr, True, t0.const, t0.cxx) if not (t0.ref or t0.dims) else t0
@@ -575,6 +593,8 @@ class Translator:
         nstat = len(getattr(self, 'file_statics', []))
         if seg and body.get('kind') != 'CompoundStmt':
             body = {'kind': 'CompoundStmt', 'inner': [body]}
+        if seg and self.seg_exits:
+            inits += '*__seg_exit = 0;\n'
         btext = self.block(body, pre=inits)
         contract_now = dict(self.contract)
         if self.contract.get('statics_value_initialised'):
@@ -633,9 +653,9 @@ class Translator:
             k = x.get('kind')
             if k in ('VarDecl', 'BindingDecl'):
                 declared.add(x.get('id'))
-            if k == 'ReturnStmt':
+            if k == 'ReturnStmt' and not seg.get('exits'):
                 raise Unsupported('segment %s contains a return statement' % cname)
-            if k in ('BreakStmt', 'ContinueStmt') and loop_depth == 0:
+            if k in ('BreakStmt', 'ContinueStmt') and loop_depth == 0 and not seg.get('exits'):
                 raise Unsupported('segment %s leaves the enclosing loop (%s)' % (cname, k))
             if k == 'DeclRefExpr':
                 r = x.get('referencedDecl') or {}
@@ -850,6 +870,14 @@ class Translator:
             return 'do\n%s%swhile (%s);\n' % (lc, b, self.cond(cond))
         if k == 'CXXForRangeStmt':
             return self.range_for(n)
+        if k == 'ReturnStmt' and getattr(self, 'seg_exits', False):
+            d = self.run_defers(1)
+            if n.get('inner'):
+                e = self.value_expr(n['inner'][0], self.seg_ret_type)
+                return '{ *__seg_retval = %s;\n%s*__seg_exit = 1; return; }\n' % (e, d)
+            return '{ %s*__seg_exit = 1; return; }\n' % d
+        if k in ('BreakStmt', 'ContinueStmt') and getattr(self, 'seg_exits', False) and not self.loop_levels:
+            return '{ %s*__seg_exit = %d; return; }\n' % (self.run_defers(1), 2 if k == 'ContinueStmt' else 3)
         if k == 'ReturnStmt':
             d = self.run_defers(1)
             if n.get('inner'):
